@@ -10,6 +10,6 @@ def run(ctx):
     def v(a):
         return a.stats["rotations"] >= 2 and a.stats["records"] >= 5
     # framing (a record lies in one file) is part of C07's statement too: C05's framing keys are mirrored
-    return rotcheck.run_property(ctx, "C07", PROFILE, quick=400, thorough=40000, nontrivial=v,
+    return rotcheck.run_property(ctx, "C07", PROFILE, quick=400, thorough=15000, nontrivial=v,
                                  rule="record sizes drawn around the limit (L-2..L+2, 0, multi-byte); non-trivial = >= 2 rotations and >= 5 records",
                                  mirror={"C05:framing-rotated": "C07:record-split", "C05:framing-active": "C07:record-split"})
